@@ -473,6 +473,19 @@ Proof.
       apply (forged_info Hf). unfold hq in Mv. rewrite Hf in Mv. exact Mv.
 Qed.
 
+(** the altered packet carries either the original MAC of hop [d] or its original
+    expiry and interfaces *)
+Lemma hq_cases :
+  h_mac hq = ph_mac (hop p d) \/
+  (is_hop_field f = true /\ h_exp hq = ph_exp (hop p d) /\ h_in hq = ph_in (hop p d) /\ h_eg hq = ph_eg (hop p d)).
+Proof. unfold hq. destruct f; cbn; auto. Qed.
+
+Lemma iq_hop ki mid : is_hop_field f = true -> iq ki mid = rinfo p ki mid (js d).
+Proof. intros Hf. unfold iq. now rewrite Hf. Qed.
+
+Lemma hq_info : is_hop_field f = false -> hq = rhop (hop p d).
+Proof. intros Hf. unfold hq. now rewrite Hf. Qed.
+
 (** * The reduction *)
 Lemma mem_upto j : (j <= d)%nat -> memN2 (ia p j) (ases_upto p d) = true.
 Proof.
